@@ -96,7 +96,12 @@ def gen_geometry(rng, m, ground):
         m.radii.append(rr)
         a.extend([opt, val])
 
+    mul = rng.choice([1] * 8 + [2, 3])       # some models are 2..3 times finer
+    if mul > 1:
+        m.features.append('fine_segmentation')
+
     def wire(nseg, p1, p2, rr=r):
+        nseg = min(nseg * mul, 30)
         o, v = _wire(nseg, p1, p2, rr)
         add('wire', nseg, rr, o, v)
         m.geo[-1]['p1'] = tuple(float(x) for x in p1)
